@@ -69,6 +69,12 @@ def build(P):
                    "n <- 3\nFOR i <- 1 TO n\nn <- n + 1\nOUTPUT i\nNEXT", "FOR i <- 1 TO 5\ni <- i + 1\nOUTPUT i\nNEXT i\nOUTPUT i",
                    "FOR i <- 1 TO 3 STEP 0\nOUTPUT i\nIF i = 1 THEN\nBREAK\nENDIF\nNEXT", "FOR i <- 1.5 TO 3\nNEXT", "FOR i <- 1 TO \"a\"\nNEXT", "FOR i <- 1 TO 2 STEP TRUE\nNEXT",
                    "DECLARE s : STRING\nFOR s <- 1 TO 2\nNEXT", "FOR i <- 9223372036854775806 TO 9223372036854775807\nOUTPUT i\nIF i < 0 THEN\nBREAK\nENDIF\nNEXT"]
+        # start, stop and step are all evaluated before the iterator is assigned; each exactly once
+        shapes += ["i <- 10\nFOR i <- 1 TO i - 7\nOUTPUT i\nNEXT i\nOUTPUT \"end \", i", "i <- 2\nFOR i <- 1 TO 9 STEP i\nOUTPUT i\nNEXT i\nOUTPUT \"end \", i",
+                   "i <- 10\nFOR i <- i TO i + 2\nOUTPUT i\nNEXT i\nOUTPUT \"end \", i", "i <- 3\nFOR i <- 9 TO i STEP - i\nOUTPUT i\nNEXT i\nOUTPUT \"end \", i",
+                   "i <- 5\nFOR i <- 1 TO \"x\"\nOUTPUT i\nNEXT i", "i <- 5\nFOR i <- 1 TO 3 STEP 1.5\nOUTPUT i\nNEXT i",
+                   "FUNCTION B(n : INTEGER) RETURNS INTEGER\nOUTPUT \"b\", n\nRETURN n\nENDFUNCTION\nFOR i <- B(1) TO B(3) STEP B(1)\nOUTPUT i\nNEXT i",
+                   "k <- 0\nFUNCTION C() RETURNS BOOLEAN\nk <- k + 1\nOUTPUT \"c\", k\nRETURN k >= 3\nENDFUNCTION\nREPEAT\nOUTPUT \"body\"\nUNTIL C()\nWHILE NOT C() DO\nOUTPUT \"never\"\nENDWHILE"]
         # BREAK / CONTINUE reach the innermost LOOP through any selection statement around them (IF, ELSE, CASE clause, OTHERWISE, nested)
         wrappers = {"if": "IF c = 3 THEN\n%s\nENDIF", "else": "IF c <> 3 THEN\nOUTPUT \"n\", c\nELSE\n%s\nENDIF", "case": "CASE OF c\n1 : OUTPUT \"one\"\n3 : %s\nOTHERWISE : OUTPUT \"o\", c\nENDCASE",
                     "otherwise": "CASE OF c\n1 : OUTPUT \"one\"\n2 : OUTPUT \"two\"\nOTHERWISE : %s\nENDCASE", "case-if": "CASE OF c\n3 : IF TRUE THEN\n%s\nENDIF\nOTHERWISE : OUTPUT \"o\", c\nENDCASE",
